@@ -374,6 +374,11 @@ class Merger:
                 "  {}.".format(id_key))
 
         merge_mode = self.config.aoh_merge_mode(node_coord)
+        if merge_mode is AoHMergeOpts.LEFT:
+            return lhs
+        if merge_mode is AoHMergeOpts.RIGHT:
+            return rhs
+
         for idx, ele in enumerate(rhs):
             path_next = path + "[{}]".format(idx)
             self.logger.debug(
